@@ -57,14 +57,14 @@ func c04One(r *Run, in *instance, wr string) {
 	w := walkVerifier(in, walkOpts{Wrapper: wr, Cap: capPlain, Field: true, Pin: true, NoShape: true,
 		Extra: map[string]hookFn{}})
 	if w.Panic != "" || w.Err != nil {
-		r.Infra("walk %s/%s failed: %s %v", in.Name, wr, w.Panic, w.Err)
+		walkFailed(r, in, wr, w)
 		return
 	}
 	pinned := w
 	// second walk with the hash permutations uninterpreted: the one the queries are generated from
 	w = walkVerifier(in, walkOpts{Wrapper: wr, Cap: capPlain, Field: true, PermGL: true, PermBN: true, NoShape: true})
 	if w.Panic != "" || w.Err != nil {
-		r.Infra("walk %s/%s failed: %s %v", in.Name, wr, w.Panic, w.Err)
+		walkFailed(r, in, wr, w)
 		return
 	}
 	// key elements as they appear in the circuit after schema symbolisation
